@@ -135,3 +135,73 @@ func FlagBad(list []string, want string) (string, error) {
 	_ = match
 	return want, nil
 }
+
+// ---- NILDEREF controls
+
+type node struct{ n int }
+
+func (x *node) size() int { return x.n }
+
+func parse(b []byte) (*node, error) {
+	if len(b) == 0 {
+		return nil, errors.New("empty")
+	}
+	return &node{n: len(b)}, nil
+}
+
+func NilDerefGood(b []byte) (int, bool) {
+	x, err := parse(b)
+	if err != nil {
+		return 0, false
+	}
+	return x.size(), true
+}
+
+func NilDerefBad(b []byte) (int, bool) {
+	x, err := parse(b)
+	return x.size(), err == nil
+}
+
+// ---- RELEASED controls
+
+var pool = sync.Pool{New: func() any { return new([64]byte) }}
+
+func ReleasedGood(b []byte) []byte {
+	buf := pool.Get().(*[64]byte)
+	defer pool.Put(buf)
+	n := copy(buf[:], b)
+	out := make([]byte, n)
+	copy(out, buf[:n])
+	return out
+}
+
+func ReleasedBad(b []byte) []byte {
+	buf := pool.Get().(*[64]byte)
+	defer pool.Put(buf)
+	n := copy(buf[:], b)
+	return buf[:n]
+}
+
+// ---- MUSTEXEC controls (every iteration that sees an empty entry deletes it)
+
+func SweepGood(m map[string][]int, seen map[string]bool) {
+	for k, v := range m {
+		if len(v) == 0 {
+			if seen[k] {
+				delete(seen, k)
+			}
+			delete(m, k)
+		}
+	}
+}
+
+func SweepBad(m map[string][]int, seen map[string]bool) {
+	for k, v := range m {
+		if len(v) == 0 {
+			if seen[k] {
+				delete(seen, k)
+				delete(m, k)
+			}
+		}
+	}
+}
